@@ -40,6 +40,18 @@ ben("f20-poll-every-iteration", ["C01"],
 mut("f21-revert-run-after-timers", ["C18", "C08"], "select/local-queue-served-after-timers",
     ("src/io/sys/unix/epoll.rs", "        #[cfg(feature = \"io_timeout\")]\n        scheduler.run_queued_tasks(id);\n\n        Ok(next_expire)", "        Ok(next_expire)"))
 
+# ---- F22: revert (store buffering in the SyncBlocker handshake)
+mut("f22-revert-set-release-release", ["C10", "C05"], "release-store",
+    ("src/sync/blocking.rs", "        self.release.store(true, Ordering::SeqCst);", "        self.release.store(true, Ordering::Release);"))
+mut("f22-revert-is-unparked-acquire", ["C10", "C12"], "unparked-load",
+    ("src/sync/blocking.rs", "        self.unparked.load(Ordering::SeqCst)", "        self.unparked.load(Ordering::Acquire)"))
+mut("f22-revert-unparked-store-release", ["C11", "C09"], "unparked-store",
+    ("src/sync/blocking.rs", "        self.unparked.store(true, Ordering::SeqCst);", "        self.unparked.store(true, Ordering::Release);"))
+mut("f22-revert-take-release-acquire", ["C10"], "release-swap",
+    ("src/sync/blocking.rs", "        self.release.swap(false, Ordering::SeqCst)", "        self.release.swap(false, Ordering::AcqRel)"))
+ben("f22-fence-form", ["C10", "C05"],
+    ("src/sync/blocking.rs", "        self.release.store(true, Ordering::SeqCst);", "        self.release.store(true, Ordering::Relaxed);\n        std::sync::atomic::fence(Ordering::SeqCst);"))
+
 # ---- F18: revert (nested run while the wait_kernel guard is held)
 mut("f18-revert-nested-run-under-guard", ["C01", "C02"], "no-nested-run-under-guard",
     ("src/park.rs", "                drop(g);\n                // here may have recursive call for subscribe", "                let _keep = &g;\n                // here may have recursive call for subscribe"))
